@@ -34,8 +34,9 @@ RULE = ("A `stream_scaled`: create_stream on a temp file with MAX_BLOB_SIZE patc
         "lbry.blob, lbry.blob.blob_file, lbry.stream.descriptor; a calibration stream proves per process that the patch "
         "drives the chunking), sizes = k*(M-1)+{-1,0,1} for k<=5, AES block boundaries 1/15/16/17/31/32/33, random <= 6M; "
         "generated 16-byte key, IV sequence (seeded / counter / constant), unicode file name legal for the OS. "
-        "A `stream_real` (enumerated): real 2 MiB blobs, sizes 1, 16, 2MiB-2, 2MiB-1, 2MiB, 2(2MiB-1)-1, 2(2MiB-1), "
-        "2(2MiB-1)+1 (thorough: also 1 MiB, 3 blobs +-1). non-trivial A = >=2 data blobs or a size on a listed boundary. "
+        "A `stream_real` (enumerated): real 2 MiB blobs; with c = 2MiB-1 plaintext bytes per blob: sizes c-1 (2MiB-2), c, c+1 "
+        "(2MiB), 2c-1, 2c, 2c+1, 1, 15, 16, 17, c-16, c-15, c+16, 1 MiB, 3c, 3c+1 (thorough: k*c+d for k<=4 and "
+        "d in +-{0,1,2,15,16,17}, 5c+3; 124 cases). non-trivial A = >=2 data blobs or a size on a listed boundary. "
         "B `tamper`: a synthesised valid descriptor (0..5 data blobs, fake hashes) + ONE tampering from a catalogue of "
         "~45 (every committed field, order, drop/dup, terminator, zero length, missing member, wrong types, key "
         "re-sorting, truncation, non-UTF-8, non-object JSON, digit shifts across the undelimited commitment), optionally "
@@ -396,11 +397,16 @@ def scaled_case(draw):
 
 
 def enum_real(tier, shard, nshards):
-    c = MIB2 - 1
+    c = MIB2 - 1  # plaintext bytes that fill one blob
     sizes = [c, c + 1, 2 * c + 1, c - 1, 2 * c, 2 * c - 1, 1, 16]
-    if tier != "quick":
-        sizes += [2 ** 20, 3 * c - 1, 3 * c, 3 * c + 1, c - 15, c - 16, 17, 4 * c + 5] + [c, c + 1, 2 * c, 2 * c + 1] * 3
-    names = ["video.mp4", "a b.c", "\u6f22\u5b57.txt", "x"]
+    if tier == "quick":
+        sizes += [c - 16, c - 15, 2 ** 20, 3 * c, 17, c + 16, 3 * c + 1, 15]
+    else:
+        for k in (1, 2, 3, 4):
+            sizes += [k * c + d for d in (-17, -16, -15, -2, -1, 0, 1, 2, 15, 16, 17)]
+        sizes += [2 ** 20, 2 ** 20 + 1, 15, 17, 31, 32, 33, 5 * c + 3]
+        sizes = sizes * 2
+    names = ["video.mp4", "a b.c", "\u6f22\u5b57.txt", "x", "q?*.<b>", " lead", "tab\there.bin"]
     for i, size in enumerate(sizes):
         if i % nshards != shard:
             continue
